@@ -12,6 +12,8 @@ Definition cfg0 : wcfg := {| capmap := None; quick := None |}.
 Fixpoint supported (t : node) : bool :=
   match t with
   | NChar _ _ _ | NAnchor _ | NNothing | NEmpty | NBump => true
+  | NCharLoop _ _ _ _ m n => (0 <=? m) && (m <=? n) && (n <=? INF)
+  | NMulti _ _ => true
   | NConcat _ l => (fix go (l : list node) : bool := match l with [] => true | x :: l' => supported x && go l' end) l
   | NAlternate _ l =>
       match l with [] => false | _ => true end &&
@@ -100,6 +102,67 @@ Proof.
     + cbn [fst]. rewrite !zlen_app, IHt1, IHt2, !zlen_cons, zlen_nil. lia.
 Qed.
 
+(* ---------- the string table only grows ---------- *)
+Definition tbl_ext (tbl tbl' : list (list Z)) : Prop := exists ext, tbl' = tbl ++ ext.
+Lemma tbl_ext_refl tbl : tbl_ext tbl tbl.
+Proof. exists []. rewrite app_nil_r. reflexivity. Qed.
+Lemma tbl_ext_trans a b c : tbl_ext a b -> tbl_ext b c -> tbl_ext a c.
+Proof. intros [x ->] [y ->]. exists (x ++ y). rewrite app_assoc. reflexivity. Qed.
+
+Lemma emit_seq_tbl_ext c l : Forall (fun t => forall a tbl, tbl_ext tbl (snd (emit c t a tbl))) l ->
+  forall a tbl, tbl_ext tbl (snd (emit_seq c l a tbl)).
+Proof.
+  induction 1 as [|x l Hx Hl IH]; intros a tbl; cbn [emit_seq]; [apply tbl_ext_refl|].
+  specialize (Hx a tbl). destruct (emit c x a tbl) as [cx t1]. cbn [snd] in Hx.
+  specialize (IH (a + zlen cx) t1). destruct (emit_seq c l (a + zlen cx) t1) as [cr t2]. cbn [snd] in *.
+  eapply tbl_ext_trans; eassumption.
+Qed.
+
+Lemma emit_alt_tbl_ext c lend l : Forall (fun t => forall a tbl, tbl_ext tbl (snd (emit c t a tbl))) l ->
+  forall a tbl, tbl_ext tbl (snd (emit_alt c lend l a tbl)).
+Proof.
+  induction 1 as [|x l Hx Hl IH]; intros a tbl; [apply tbl_ext_refl|].
+  destruct l as [|y l'].
+  - cbn [emit_alt]. apply Hx.
+  - rewrite wr_emit_alt_cons2.
+    specialize (Hx (a + 2) tbl). destruct (emit c x (a + 2) tbl) as [cx t1]. cbn [snd] in Hx.
+    cbv zeta. specialize (IH (a + 2 + zlen cx + 2) t1).
+    destruct (emit_alt c lend (y :: l') (a + 2 + zlen cx + 2) t1) as [cr t2]. cbn [snd] in *.
+    eapply tbl_ext_trans; eassumption.
+Qed.
+
+Lemma emit_tbl_ext c : forall t a tbl, tbl_ext tbl (snd (emit c t a tbl)).
+Proof.
+  induction t using node_ind'; intros aa tbl; try (cbn [emit snd]; apply tbl_ext_refl).
+  - cbn [emit]. unfold string_code. destruct (str_index s tbl 0); cbn [snd].
+    + apply tbl_ext_refl.
+    + exists [s]. reflexivity.
+  - rewrite wr_emit_concat_eq. apply emit_seq_tbl_ext. assumption.
+  - rewrite wr_emit_alternate_eq. apply emit_alt_tbl_ext. assumption.
+  - cbn [emit].
+    match goal with |- context [emit c t ?x tbl] => specialize (IHt x tbl); destruct (emit c t x tbl) as [cr t1] end.
+    exact IHt.
+  - cbn [emit]. destruct (emit_capture c g u).
+    + specialize (IHt (aa + 1) tbl). destruct (emit c t (aa + 1) tbl) as [cr t1]. exact IHt.
+    + apply IHt.
+  - cbn [emit]. apply IHt.
+  - cbn [emit]. specialize (IHt (aa + 2) tbl). destruct (emit c t (aa + 2) tbl) as [cr t1]. exact IHt.
+  - cbn [emit]. specialize (IHt (aa + 3) tbl). destruct (emit c t (aa + 3) tbl) as [cr t1]. exact IHt.
+  - cbn [emit]. specialize (IHt (aa + 1) tbl). destruct (emit c t (aa + 1) tbl) as [cr t1]. exact IHt.
+  - cbn [emit]. specialize (IHt (aa + 6) tbl). destruct (emit c t (aa + 6) tbl) as [cy t1]. cbn [snd] in *.
+    destruct no as [x|]; cbn [opt_all] in *.
+    + match goal with |- context [emit c x ?y t1] => specialize (H y t1); destruct (emit c x y t1) as [cn t2] end.
+      cbn [snd] in *. eapply tbl_ext_trans; eassumption.
+    + exact IHt.
+  - cbn [emit]. specialize (IHt1 (aa + 4) tbl). destruct (emit c t1 (aa + 4) tbl) as [cc t1']. cbn [snd] in *.
+    match goal with |- context [emit c t2 ?y t1'] => specialize (IHt2 y t1'); destruct (emit c t2 y t1') as [cy t2'] end.
+    cbn [snd] in *.
+    destruct no as [x|]; cbn [opt_all] in *.
+    + match goal with |- context [emit c x ?y t2'] => specialize (H y t2'); destruct (emit c x y t2') as [cn t3] end.
+      cbn [snd] in *. eapply tbl_ext_trans; [eassumption|]. eapply tbl_ext_trans; eassumption.
+    + eapply tbl_ext_trans; eassumption.
+Qed.
+
 (* ---------- list_set / capture-array facts ---------- *)
 Lemma cc_list_set_length {A} (l : list A) n x : length (list_set l n x) = length l.
 Proof. revert n; induction l as [|h l IH]; intros [|n]; cbn [list_set length]; try reflexivity. rewrite IH. reflexivity. Qed.
@@ -159,7 +222,7 @@ Lemma cc_supported_min_ok : forall t, supported t = true -> loops_min_ok t.
 Proof.
   unfold loops_min_ok.
   induction t using node_ind'; intros Hs; cbn [supported] in Hs; try discriminate Hs;
-    cbn [sb_all sb_min_ok]; try (split; exact I).
+    cbn [sb_all sb_min_ok]; try (split; exact I); try (split; [lia|exact I]).
   - split; [exact I|]. change (supported_list l = true) in Hs. apply cc_supported_list_forall in Hs.
     induction H as [|x l Hx Hl IH]; [exact I|]. inversion Hs; subst. split; [apply Hx; assumption|apply IH; assumption].
   - split; [exact I|]. apply andb_prop in Hs. destruct Hs as [_ Hs].
@@ -202,11 +265,21 @@ Proof.
     + rewrite cc_nth_list_set_other by lia. rewrite sb_cap_get_set_other by exact Hne. apply Hc. exact Hg'.
 Qed.
 
+(* the program's string table contains the writer's table *)
+Definition tbl_ok (tbl : list (list Z)) : Prop :=
+  forall i str, znth tbl i = Some str -> znth (strings p) i = Some str.
+
+Lemma tbl_ok_ext tbl tbl' : tbl_ext tbl tbl' -> tbl_ok tbl' -> tbl_ok tbl.
+Proof.
+  intros [ext ->] H i str Hi. apply H. unfold znth in *. destruct (i <? 0); [discriminate|].
+  rewrite nth_error_app1; [exact Hi|]. apply nth_error_Some. congruence.
+Qed.
+
 (* what has to be shown for one node at one fuel level *)
 Definition ok_node (f : nat) (t : node) : Prop :=
   forall s res, sem e f t s = Ok res -> st_ok e s ->
   forall a tbl T S C M, has_code a (fst (emit cfg0 t a tbl)) -> code_ex (a + csize cfg0 t) ->
-    track_ok T -> caps_rel (caps s) M ->
+    track_ok T -> caps_rel (caps s) M -> tbl_ok (snd (emit cfg0 t a tbl)) ->
     leadsg (a + csize cfg0 t) T S S C M (mkr a 0 (pos s) T S C M) res.
 
 Definition ok_at (f : nat) : Prop :=
